@@ -45,7 +45,9 @@ Theorem c02_mwpm_skeleton : forall (node : Type) stabs n2 (ind : node -> bsf) (p
   syndrome_of stabs (recovery_of node n2 path m) = xsum (length stabs) (map ind nodes).
 Proof. exact mates_recovery_syndrome. Qed.
 
-(* the end-to-end statement for the modelled-by-lattice decoders is not proved here *)
+(* the generic end-to-end statement (an arbitrary decode function) stays visible; proved instances, all sizes, are
+   re-exported below: planar / toric MWPM (every perfect matching), planar / rotated planar / colour MPS and RMPS
+   decoders (sample recovery xor any logical class), naive decoder above *)
 Definition c02_all_decoders_statement : Prop :=
   forall (decode : list bsf -> bsf -> list Z) stabs n e, length e = 2 * n ->
     recovery_ok stabs n (decode stabs (syndrome_of stabs e)) (syndrome_of stabs e) = true.
